@@ -97,6 +97,7 @@ fn fault_opts() -> GraphOpts {
         mark_all: false,
         sized: true,
         wide: true,
+        mega: false,
     }
 }
 
@@ -236,7 +237,37 @@ fn fault_ops(fault: &str, p: &Project, a: &Analysis, i: usize, rng: &mut Rng) ->
             },
             insert_lines(p, a, i, &[format!("-TXTPP#temp tlink{i}.tmp"), "-body".into()], rng, None),
         ],
-        "F8-fsize-limit" => vec![],
+        "F8-fsize-limit" => {
+            // half of the time the file ends with one large chunk (an include of a 40 KiB file):
+            // a single write call that the size limit can cut in the middle
+            if rng.chance(1, 2) {
+                let mut blob = String::new();
+                while blob.len() < 40 * 1024 {
+                    blob.push_str("blob blob blob blob blob blob blob blob blob blob blob blob blob\n");
+                }
+                let data = p.file(&s.path).map(|d| d.lossy()).unwrap_or_default();
+                let eol = crate::spec::line_ending(&data);
+                let mut t = data.clone();
+                if !t.is_empty() && !t.ends_with('\n') {
+                    t.push_str(eol);
+                }
+                t.push_str("~");
+                t.push_str(eol);
+                t.push_str("TXTPP#include bigblob.txt");
+                vec![
+                    Op::Write {
+                        path: in_dir("bigblob.txt"),
+                        data: B(blob.into_bytes()),
+                    },
+                    Op::Write {
+                        path: s.path.clone(),
+                        data: B(t.into_bytes()),
+                    },
+                ]
+            } else {
+                vec![]
+            }
+        }
         "F9-tampered-output" => {
             let kinds = [
                 TamperKind::Flip,
@@ -245,6 +276,7 @@ fn fault_ops(fault: &str, p: &Project, a: &Analysis, i: usize, rng: &mut Rng) ->
                 TamperKind::Append,
                 TamperKind::Truncate,
                 TamperKind::Remove,
+                TamperKind::LossyTwin,
             ];
             vec![Op::Tamper {
                 path: s.out.clone(),
@@ -313,7 +345,7 @@ pub fn gen(prop: &str, seed: u64, index: u64, _tier: Tier) -> Case {
         (p, vec![".".to_string()], true, 0, "root")
     });
     let a = analyze(&project);
-    let tn = !prng.chance(1, 6);
+    let tn = if fault == "F8-fsize-limit" { !prng.chance(1, 2) } else { !prng.chance(1, 6) };
     let mut ops = vec![];
     let mk_run = |rng: &mut Rng, mode: ModeS, label: &str| {
         let mut cfg = RunCfg::simple(mode, "", inputs.clone(), *rng.pick(&gen::KS));
@@ -374,11 +406,19 @@ pub fn run_cli(root: &std::path::Path, cfg: &RunCfg) -> Option<i32> {
     c.current_dir(tree::abs(root, &cfg.base));
     c.env_remove("TXTPP_FILE");
     c.env("RUST_BACKTRACE", "0");
+    // the top-level -N flag is accepted in front of a subcommand and must not change its mode
+    let stray_needed = std::env::var("VERIF_CLI_STRAY_N").map(|v| v == "1").unwrap_or(false);
     match cfg.mode {
         ModeS::Verify => {
+            if stray_needed {
+                c.arg("-N");
+            }
             c.arg("verify");
         }
         ModeS::Clean => {
+            if stray_needed {
+                c.arg("-N");
+            }
             c.arg("clean");
         }
         ModeS::Needed => {
@@ -413,6 +453,17 @@ pub fn run_cli(root: &std::path::Path, cfg: &RunCfg) -> Option<i32> {
     }
 }
 
+/// The project as the faulted run sees its sources: source edits among the operations applied.
+fn project_with_writes(case: &Case) -> Project {
+    let mut p = case.project.clone();
+    for op in &case.ops {
+        if let Op::Write { path, data } = op {
+            p.add_file(path, data.clone());
+        }
+    }
+    p
+}
+
 /// F8: turn the relative description of the size limit into bytes, from the sizes a reference
 /// build of the same sources produces. Returns (case with the limit filled in, expected failure).
 fn resolve_fsize(case: &Case, ctx: &mut Ctx) -> Option<(Case, bool, String)> {
@@ -420,13 +471,14 @@ fn resolve_fsize(case: &Case, ctx: &mut Ctx) -> Option<(Case, bool, String)> {
         Some(Op::Run { cfg, sched, .. }) => (cfg.clone(), sched.clone()),
         _ => return None,
     };
-    let a = analyze(&case.project);
-    let named = match gen::r_inputs(&case.project, &a, &cfg.base, &cfg.inputs, cfg.recursive) {
+    let project = project_with_writes(case);
+    let a = analyze(&project);
+    let named = match gen::r_inputs(&project, &a, &cfg.base, &cfg.inputs, cfg.recursive) {
         Resolved::Sources(s) => s,
         _ => return None,
     };
     let req = a.closure(&named);
-    tree::plant(&ctx.env.ref_root, &case.project);
+    tree::plant(&ctx.env.ref_root, &project);
     let r = crate::env::rseq(
         ctx.env,
         &ctx.env.ref_root,
@@ -552,7 +604,7 @@ pub fn run(case: &Case, ctx: &mut Ctx) -> CaseOutcome {
         // an empty output never writes, so a full device is not a fault for it
         if let Some(i) = fi {
             let good: BTreeSet<usize> = [i].into_iter().collect();
-            tree::plant(&ctx.env.ref_root, &case.project);
+            tree::plant(&ctx.env.ref_root, &project_with_writes(case));
             let r = crate::env::rseq(
                 ctx.env,
                 &ctx.env.ref_root,
@@ -642,6 +694,7 @@ pub fn run(case: &Case, ctx: &mut Ctx) -> CaseOutcome {
     // a sample of cells again through the real binary (OS-scheduled): exit status must agree
     if case.index % 8 == 0 && out.violation.is_none() && !is_f8 {
         tree::restore(&ctx.env.root, &last.before);
+        std::env::set_var("VERIF_CLI_STRAY_N", if case.index % 16 == 0 { "1" } else { "0" });
         if let Some(code) = run_cli(&ctx.env.root, &last.cfg) {
             ctx.stats.count("c04.cli_runs");
             let lib_err = last.sim.verdict.is_err();
